@@ -709,7 +709,7 @@ theorem sdiff_classified (s : MState) (now : Int) (keys : List Bytes) (vals : Li
       simp [diffOf]
 
 
-/-! ### SMOVE of the last member -/
+/-! ### SMOVE of the last member (the store-level theorem `smove_src_gone` is in C03Seq) -/
 
 theorem srem_singleton_last (st : AList Unit) (member : Bytes) (hsorted : AList.Sorted st)
     (hmem : DsSet.mem st member = true) (hlast : ∀ x, DsSet.mem st x = true → x = member) :
@@ -724,30 +724,6 @@ theorem srem_singleton_last (st : AList Unit) (member : Bytes) (hsorted : AList.
   rw [h1] at h2 ⊢
   simp only at h2
   rw [h2]
-
-theorem smove_src_gone (s : MState) (now : Int) (src dst member : Bytes) (st : AList Unit)
-    (h : Hot s src (.set st) now) (hs : IndexSorted s) (hne : src ≠ dst) (hsorted : AList.Sorted st)
-    (hmem : DsSet.mem st member = true) (hlast : ∀ x, DsSet.mem st x = true → x = member) :
-    getMeta (smove s now src dst member).1 src = none := by
-  unfold smove
-  rw [writeKey_hot_pair s now src none _ h]
-  simp only [Bool.not_true, Bool.false_eq_true, if_false]
-  rw [asSet_hot (hot_after_writeKey s now src none _ h).2]
-  simp only
-  rw [srem_singleton_last st member hsorted hmem hlast]
-  have hs1 := sorted_after_writeKey_hot s now src none _ h hs
-  have hgone : getMeta (signal (delKey (setVal (writeKey s now src none).1 src (.set [])) src) src) src = none := by
-    rw [getMeta_signal_same, getMeta_delKey_same _ _ (setVal_sorted _ _ _ hs1)]; rfl
-  simp only [Int.reduceEq, if_false, DsSet.scard, List.length_nil, Int.natCast_zero, if_true]
-  have hw := getMeta_writeKey_other (signal (delKey (setVal (writeKey s now src none).1 src (.set [])) src) src) now dst
-    (some (.set [])) src hne
-  rw [hgone] at hw
-  split
-  · exact hw
-  · simp only
-    rw [getMeta_emit, getMeta_signal_other _ _ _ hne]
-    exact getMeta_setVal_none _ _ _ _ hw hne
-
 
 /-! ### the abstract set denoted by an operand: a missing key is the empty set -/
 
@@ -1098,5 +1074,59 @@ theorem spop_absent (s : MState) (now : Int) (key : Bytes) (count : Int) (choice
   unfold spop
   rw [hp]
   rfl
+
+/-! ### SMOVE: the destination check made before the member leaves the source -/
+
+/-- a write access without a constructor (`writeKey … none`) only locks / counts: it preserves the
+    classification of every key -/
+theorem pres_writeKey_none (s : MState) (now : Int) (k' : Bytes) : Pres s (writeKey s now k' none).1 now := by
+  constructor
+  · intro k h
+    by_cases e : k = k'
+    · subst e; exact (writeKey_absent_none s now k h).2
+    · intro m hm
+      rw [getMeta_writeKey_other s now k' none k e] at hm
+      exact h m hm
+  · intro k v h
+    by_cases e : k = k'
+    · subst e; exact (hot_after_writeKey s now k none v h).2
+    · obtain ⟨m, hm, rest⟩ := h
+      exact ⟨m, by rw [getMeta_writeKey_other s now k' none k e]; exact hm, rest⟩
+
+/-- the destination of SMOVE is acceptable: it is missing, or it holds a set -/
+def DstOk (s : MState) (dst : Bytes) (now : Int) : Prop :=
+  Absent s dst now ∨ ∃ d, Hot s dst (.set d) now
+
+/-- the destination of SMOVE exists and holds a value of another type -/
+def DstWrong (s : MState) (dst : Bytes) (now : Int) : Prop :=
+  ∃ v, Hot s dst v now ∧ ∀ d, v ≠ .set d
+
+theorem dstOk_pres {s s' : MState} {now : Int} (p : Pres s s' now) {dst : Bytes} (h : DstOk s dst now) :
+    DstOk s' dst now := by
+  rcases h with ha | ⟨d, hd⟩
+  · exact Or.inl (p.1 dst ha)
+  · exact Or.inr ⟨d, p.2 dst _ hd⟩
+
+theorem dstWrong_pres {s s' : MState} {now : Int} (p : Pres s s' now) {dst : Bytes} (h : DstWrong s dst now) :
+    DstWrong s' dst now := by
+  obtain ⟨v, hv, hne⟩ := h
+  exact ⟨v, p.2 dst v hv, hne⟩
+
+/-- the test `dok && asSet(dst) = nil` of `Api.smove` -/
+theorem smove_check_ok (s : MState) (now : Int) (dst : Bytes) (h : DstOk s dst now) :
+    ((writeKey s now dst none).2 && (asSet (writeKey s now dst none).1 dst).isNone) = false := by
+  rcases h with ha | ⟨d, hd⟩
+  · rw [(writeKey_absent_none s now dst ha).1]; rfl
+  · rw [asSet_hot (hot_after_writeKey s now dst none _ hd).2]; simp
+
+theorem smove_check_wrong (s : MState) (now : Int) (dst : Bytes) (h : DstWrong s dst now) :
+    ((writeKey s now dst none).2 && (asSet (writeKey s now dst none).1 dst).isNone) = true := by
+  obtain ⟨v, hv, hne⟩ := h
+  obtain ⟨a, b⟩ := hot_after_writeKey s now dst none v hv
+  rw [a]
+  simp only [asSet, valOf_hot b]
+  cases v with
+  | set d => exact absurd rfl (hne d)
+  | _ => rfl
 
 end NodisVerif.Proofs.C03Api
